@@ -315,6 +315,7 @@ def run(F, rep, tier):
             if hsize is not None:
                 rep.check(total(hw) == hsize, "C07-R2", "header:size-constant", "ByteCodeHeader::write_to writes %d bytes but HEADER_SIZE = %s" % (total(hw), hsize), sample={"written": total(hw), "HEADER_SIZE": hsize})
     run_r5(F, rep, crate, cg)
+    run_r6(F, rep, crate)
 
 
 def _int_eval(e):
@@ -435,3 +436,69 @@ def run_r5(F, rep, crate, cg):
                               "decode_instructions (%s)" % crate, sample={"opcode": op, "guard": txt, "required": need, "instruction_bytes": size})
         break
     rep.floor("C07-R5", "truncation guards compared with instruction sizes", n, 5)
+
+
+def run_r6(F, rep, crate):
+    """C07-R6: the loader's alignment test accepts every alignment the compiler hands out"""
+    from lib.facts import find, walk, is_node, path_of, render, render_pat, last_seg
+    from lib.minieval import ev, NoEval
+    from lib import fxn as X
+    rep.rule("C07-R6", "decode_const_entries: check_alignment(offset, align) holds for every alignment ValueKind::align()/ConstElem::align() can return and every offset that is a "
+                       "multiple of it (decided over the finite table) - a stricter test rejects constants of files the compiler itself emitted")
+    core = F.syn(crate)
+    aligns = set()
+    for it in core:
+        if it["k"] == "method" and it["name"] == "align" and it.get("body"):
+            for x in walk(it["body"]):
+                if x[0] == "int":
+                    try:
+                        v = int(re.sub(r"[^0-9].*$", "", str(x[1])))
+                        if 0 < v <= 64:
+                            aligns.add(v)
+                    except ValueError:
+                        pass
+    rep.floor("C07-R6", "distinct alignments the compiler can hand out", len(aligns), 4)
+    fns = [it for it in core if it["k"] == "fn" and it["name"] == "check_alignment"]
+    if not rep.check(len(fns) == 1, "C07-R6", "anchor:check_alignment", "check_alignment not found"):
+        return
+    it = fns[0]
+    params = [p[0][1] for p in it["sig"]["inputs"] if is_node(p[0]) and p[0][0] == "pident"]
+    consts = {}
+    for c in core:
+        if c["k"] == "const" and c.get("val") is not None:
+            try:
+                consts[c["name"]] = ev(c["val"], {})
+            except NoEval:
+                pass
+    if not rep.check(len(params) == 2, "C07-R6", "anchor:signature", "check_alignment no longer takes (offset, align)"):
+        return
+    wrong = []
+    n = 0
+    try:
+        for a in sorted(aligns):
+            for off in (0, a, 3 * a):
+                env = dict(consts)
+                env[params[0]] = off
+                env[params[1]] = a
+                result = None
+                for st in it["body"]:
+                    if st[0] == "let" and st[2] is not None and st[1][0] == "pident":
+                        env[st[1][1]] = ev(st[2], env)
+                    elif st[0] == "expr" and is_node(st[1]) and st[1][0] == "if":
+                        if bool(ev(st[1][1], env)):
+                            rets = [x for s2 in st[1][2] for x in walk(s2) if x[0] == "ret"]
+                            tails = [s2[1] for s2 in st[1][2] if s2[0] == "expr" and not s2[2]]
+                            val = rets[0][1] if rets else (tails[0] if tails else None)
+                            result = ev(val, env) if val is not None else None
+                            break
+                    elif st[0] == "expr" and not st[2]:
+                        result = ev(st[1], env)
+                n += 1
+                if result is not True:
+                    wrong.append("align %d at offset %d -> %s" % (a, off, result))
+    except NoEval as ex:
+        rep.note("C07-R6-undecided", "check_alignment not interpretable: %s" % ex)
+        return
+    rep.check(not wrong, "C07-R6", "check_alignment:accepts-every-emitted-alignment" if not wrong else "check_alignment:rejects:%s" % ",".join(sorted({w.split()[1] for w in wrong})),
+              "check_alignment rejects alignments the compiler hands out (%s; ValueKind::align returns %s): decode_const_entries fails with ConstantEntryAlignmentError on a file the compiler emitted" % (
+                  "; ".join(wrong[:3]), sorted(aligns)), "check_alignment (%s)" % crate, sample={"alignments": sorted(aligns), "combinations": n})
